@@ -15,6 +15,10 @@ import (
 
 // GenFork builds a fork tree above base, its arrival order and finality schedule, then a
 // tail that extends the best chain so that everything becomes final and the stop block is reached.
+// forkNoSkippedHeights: compiled test modules assert arithmetic over contiguous block numbers (set by the
+// real-wazero fork generator around its call; generation is single-threaded).
+var forkNoSkippedHeights bool
+
 func GenFork(r *Rng, base uint64, heights, maxBlocks int) (*ForkScenario, uint64) {
 	f := &ForkScenario{Base: base}
 	baseID := canonID(base)
@@ -43,7 +47,7 @@ func GenFork(r *Rng, base uint64, heights, maxBlocks int) (*ForkScenario, uint64
 	// first block extends the base
 	add := func(parentID string, parentNum uint64, parentLib uint64) *node {
 		num := parentNum + 1
-		if r.Chance(1, 10) {
+		if r.Chance(1, 10) && !forkNoSkippedHeights {
 			num++ // skipped height
 		}
 		lib := parentLib
@@ -245,6 +249,11 @@ func (c *c03Checker) AfterRequest(x *Exec, idx int, h *HistItem, res *RunResult)
 	ref, err := x.Ref(pkg, h.Req.Output, h.Req.SegSize)
 	if err != nil {
 		x.Rep.Infra = "reference run failed: " + err.Error()
+		return nil
+	}
+	if ref.FailedAt != nil && x.S.Pkg.Spkg != "" {
+		// a compiled test module that fails on the canonical chain itself (test_map with its default params)
+		x.Probe("reference_fails_deterministically")
 		return nil
 	}
 	if res.HasErr {
